@@ -14,7 +14,7 @@ forms, a non-ASCII name and a 300-character name.  Ids come from a deterministic
 counter (uuid4 randomness is outside the claim); creation order and hard links
 are those of fakeh5 (pinned against h5py by the differential script).
 """
-from vf.ob import Ob, assume
+from vf.ob import Ob, assume, untraced
 from vf import models, fakeh5, nixfake
 
 PROPERTY = "C03"
@@ -306,6 +306,110 @@ def _empty_refill(kind, path, k1, k2, via_other):
         [x.id for x in get(fresh())] == want
 
 
+# ---------------------------------------------------------------------------
+# ids are never rewritten: a copy (with kept or with fresh ids) made from any entity leaves the
+# id of EVERY pre-existing entity as it was, all lookups by id still agree, and - with fresh
+# ids - no id occurs twice in the file
+# ---------------------------------------------------------------------------
+def _id_map(f):
+    """(kind path) -> id for every entity reachable through the API"""
+    out = {}
+
+    def srcs(cont, path):
+        for s in cont:
+            out[path + "/src:" + s.name] = s.id
+            srcs(s.sources, path + "/src:" + s.name)
+
+    def secs(cont, path):
+        for s in cont:
+            out[path + "/sec:" + s.name] = s.id
+            for p in s.props:
+                out[path + "/sec:" + s.name + "/prop:" + p.name] = p.id
+            secs(s.sections, path + "/sec:" + s.name)
+    secs(f.sections, "")
+    for b in f.blocks:
+        bp = "/blk:" + b.name
+        out[bp] = b.id
+        for a in b.data_arrays:
+            out[bp + "/da:" + a.name] = a.id
+        for t in b.tags:
+            out[bp + "/tag:" + t.name] = t.id
+        for m in b.multi_tags:
+            out[bp + "/mt:" + m.name] = m.id
+        for g in b.groups:
+            out[bp + "/grp:" + g.name] = g.id
+        srcs(b.sources, bp)
+    return out
+
+
+def _ob_ids_stable(ci: int, keep: bool) -> bool:
+    """
+    pre: 0 <= ci < 7
+    post: __return__
+    """
+    import nixio
+    nixfake.begin()
+    with untraced():
+        f = nixio.File(PATH, "w")
+        sec = f.create_section("sec", "t")
+        sec.create_property("p", [1])
+        sub = sec.create_section("sub", "t")
+        sub.create_property("q", ["x"])
+        sub.create_section("deep", "t")
+        blk = f.create_block("blk", "t")
+        a = blk.create_data_array("a", "t", data=[1.0])
+        b = blk.create_data_array("b", "t", data=[2.0])
+        tg = blk.create_tag("tg", "t", [0.0])
+        tg.references.append(a)
+        mt = blk.create_multi_tag("mt", "t", positions=b)
+        mt.references.append(a)
+        grp = blk.create_group("g", "t")
+        grp.data_arrays.append(a)
+        grp.data_arrays.append(b)
+        grp.tags.append(tg)
+        src = blk.create_source("s", "t")
+        child = src.create_source("c", "t")
+        a.sources.append(child)
+        other = f.create_block("other", "t")
+    before = _id_map(f)
+    held = {"a": (a, a.id), "tg": (tg, tg.id), "sub": (sub, sub.id), "child": (child, child.id)}
+    if ci == 0:
+        f.create_block("blk2", copy_from=blk, keep_copy_id=keep)
+    elif ci == 1:
+        other.create_data_array("a", copy_from=a, keep_copy_id=keep)
+    elif ci == 2:
+        other.create_tag("tg", copy_from=tg, keep_copy_id=keep)
+    elif ci == 3:
+        other.create_multi_tag("mt", copy_from=mt, keep_copy_id=keep)
+    elif ci == 4:
+        f.copy_section(sec, keep_id=keep, name="sec2")
+    elif ci == 5:
+        sec.copy_section(sub, keep_id=keep, name="sub2")
+    else:
+        sub.create_property("p2", copy_from=sec.props["p"], keep_copy_id=keep)
+    after = _id_map(f)
+    # every pre-existing entity still has the id it had
+    for path, eid in before.items():
+        if after.get(path) != eid:
+            return False
+    for h, eid in held.values():
+        if h.id != eid:                                 # ... also seen through handles held all along
+            return False
+    # lookups of the original still agree
+    if not (a.id in grp.data_arrays and a in grp.data_arrays and grp.data_arrays[a.id].name == "a" and
+            a.id in tg.references and child.id in a.sources and blk.data_arrays[a.id].name == "a" and
+            sec.sections[sub.id].name == "sub" and tg.id in grp.tags):
+        return False
+    new = [v for k, v in after.items() if k not in before]
+    if not new:
+        return False                                    # the copy is there
+    if not keep:
+        allids = list(after.values())
+        if len(set(allids)) != len(allids):
+            return False                                # fresh ids: no id twice in the file
+    return True
+
+
 def validate():
     return {"fakeh5_vs_h5py": fakeh5.validate_against_h5py()}
 
@@ -359,6 +463,12 @@ OBLIGATIONS = [
                "is character for character the id of a sibling is ambiguous by design (the id takes "
                "precedence) - only lookups by id are asserted for it; data frames (not working "
                "with the installed NumPy); reopening (libhdf5)"),
+    Ob("ids_stable_under_copy", _ob_ids_stable, timeout=600,
+       functions=["nixio.hdf5.h5group.H5Group.copy", "nixio.block.Block._copy_objects",
+                  "nixio.file.File.copy_section", "nixio.section.Section.copy_section"],
+       replay=lambda a: _real("_ob_ids_stable", a),
+       outside="seven copy operations on one fixture; ids come from the counter stub (uniqueness of uuid4 is "
+               "randomness)"),
     Ob("link_list_emptied_and_refilled", _ob_empty_refill, timeout=600,
        partition=["group.data_arrays", "tag.references", "data_array.sources"],
        functions=["nixio.container.LinkContainer.append", "nixio.container.LinkContainer.__delitem__",
